@@ -85,9 +85,46 @@ func govalDeviation(gc govalCase, msg string) string {
 	return ""
 }
 
+// structTypesIn: every struct type (other than library types) inside t, outermost first.
+func structTypesIn(t reflect.Type, seen map[reflect.Type]bool, out *[]reflect.Type) {
+	if seen[t] {
+		return
+	}
+	seen[t] = true
+	switch t.Kind() {
+	case reflect.Struct:
+		if t.PkgPath() != "" && t.PkgPath() != "main" { // time.Time, big.Int, apd.Decimal ...
+			return
+		}
+		*out = append(*out, t)
+		for i := 0; i < t.NumField(); i++ {
+			structTypesIn(t.Field(i).Type, seen, out)
+		}
+	case reflect.Ptr, reflect.Slice, reflect.Array:
+		structTypesIn(t.Elem(), seen, out)
+	case reflect.Map:
+		structTypesIn(t.Key(), seen, out)
+		structTypesIn(t.Elem(), seen, out)
+	}
+}
+
+// recordConfig: a configuration that marshals every struct type of t as a record, or nil.
+func recordConfig(t reflect.Type) *configuration.Configuration {
+	var sts []reflect.Type
+	structTypesIn(t, map[reflect.Type]bool{}, &sts)
+	if len(sts) == 0 {
+		return nil
+	}
+	cfg := configuration.New()
+	for i, st := range sts {
+		cfg.Iterator.RecordTypes[st] = fmt.Sprintf("r%d", i+1)
+	}
+	return cfg
+}
+
 func checkC05(c *Check) {
-	c.Rule = "TLC (GoValGen.tla over GoVal.tla) enumerates abstract Go types to depth 2 (every leaf kind; slices, arrays, maps with every keyable key kind, pointers, two-field structs; nested once more over a smaller leaf set) x value classes (empty, one, many, 17 elements, nil pointers) with the event shape Shape(t, vc) the marshaler must emit; each case is materialised with reflect (boundary leaf values) and given to the real iterator behind real rules: the stream must be accepted, its event classes must equal Shape, its normalised tokens must equal the harness's own walk of the value, and the CBE and CTE documents marshaled from it must decode with rules. non-trivial = type has a container; distinct = (type, class, repetition)"
-	c.Assumptions = []string{"harness materialiser and value walk (goval.go)", "TLC", "default iterator configuration (snake-case names, empty fields omitted); record types and recursion support are exercised by C20 / C21"}
+	c.Rule = "TLC (GoValGen.tla over GoVal.tla) enumerates abstract Go types to depth 2 (every leaf kind; slices, arrays, maps with every keyable key kind, pointers, two-field structs; nested once more over a smaller leaf set) x value classes (empty, one, many, 17 elements, nil pointers) with the event shape Shape(t, vc) the marshaler must emit; each case is materialised with reflect (boundary leaf values) and given to the real iterator behind real rules: the stream must be accepted, its event classes must equal Shape, its normalised tokens must equal the harness's own walk of the value, and the CBE and CTE documents marshaled from it must decode with rules; the same with every struct type of the value configured as a record type (records read as maps must carry what the maps carry when no field is omitted). non-trivial = type has a container; distinct = (type, class, repetition)"
+	c.Assumptions = []string{"harness materialiser and value walk (goval.go)", "TLC", "default iterator configuration (snake-case names, empty fields omitted), and every struct type configured as a record type; recursion support is exercised by C20"}
 	cases, reps := govalTier(c)
 	forGoVal(c, cases, reps, func(gc govalCase, v reflect.Value, cfg *configuration.Configuration, key string) {
 		c.Count(key, gc.T.K != "" && (gc.T.E != nil || len(gc.T.Fields) > 0))
@@ -162,6 +199,61 @@ func checkC05(c *Check) {
 				return
 			}
 		}
+		// the same value with its struct types configured as record types: the stream must be
+		// accepted and, records read as maps, carry what the map form carries when no field is omitted
+		if rcfg := recordConfig(v.Type()); rcfg != nil {
+			revs, rrej := iterateValue(val, rcfg)
+			wit["record_events"] = evsString(revs)
+			if rrej != nil {
+				report(fmt.Sprintf("marshaling %s (%s) with record types emits a stream the validator rejects / fails: %v; events so far: %s", gc.T, gc.VC, rrej, evsString(revs)))
+				return
+			}
+			// compared with no field omitted on either side (a struct nested in a record is written
+			// as a map, which would otherwise drop its empty fields)
+			ncfg := configuration.New()
+			ncfg.Iterator.DefaultFieldOmitBehavior = configuration.OmitFieldNever
+			nevs, nrej := iterateValue(val, ncfg)
+			rncfg := recordConfig(v.Type())
+			rncfg.Iterator.DefaultFieldOmitBehavior = configuration.OmitFieldNever
+			rnevs, rnrej := iterateValue(val, rncfg)
+			if nrej == nil && rnrej != nil {
+				report(fmt.Sprintf("marshaling %s (%s) with record types and no field omitted fails: %v", gc.T, gc.VC, rnrej))
+				return
+			}
+			if nrej == nil {
+				a, e1 := resolveTokens(normStream(rnevs, normOpts{}))
+				b, e2 := resolveTokens(normStream(nevs, normOpts{}))
+				if e1 != nil || e2 != nil {
+					report(fmt.Sprintf("marshaling %s (%s) with record types: malformed stream (%v %v): %s", gc.T, gc.VC, e1, e2, evsString(revs)))
+					return
+				}
+				if d := diffTokens(sortMapsInTokens(b), sortMapsInTokens(a)); d != "" {
+					report(fmt.Sprintf("marshaling %s (%s) = %s as records carries other data than as maps with every field: %s; record stream %s", gc.T, gc.VC, absValue(val), d, evsString(revs)))
+					return
+				}
+			}
+			for _, format := range []string{"cbe", "cte"} {
+				var doc []byte
+				var err error
+				if format == "cbe" {
+					doc, err = ce.MarshalToCBEDocument(val, rcfg)
+				} else {
+					doc, err = ce.MarshalToCTEDocument(val, rcfg)
+				}
+				var derr error
+				if err == nil {
+					if format == "cbe" {
+						derr = ce.NewCBEDecoder(rcfg).DecodeDocument(doc, ce.NewRules(&Recorder{}, rcfg))
+					} else {
+						derr = ce.NewCTEDecoder(rcfg).DecodeDocument(doc, ce.NewRules(&Recorder{}, rcfg))
+					}
+				}
+				if err != nil || derr != nil {
+					report(fmt.Sprintf("the %s document marshaled from %s (%s) with record types does not marshal/decode: %v %v; document %q", format, gc.T, gc.VC, err, derr, printable(doc)))
+					return
+				}
+			}
+		}
 		c.AddTraces(1)
 		if len(evs) > 6 {
 			c.Sample(map[string]interface{}{"type": gc.T.String(), "class": gc.VC, "events": evsString(evs)})
@@ -170,14 +262,24 @@ func checkC05(c *Check) {
 }
 
 func checkC04(c *Check) {
-	c.Rule = "Same enumeration as C05 (GoValGen.tla): every (type, value class) is materialised, marshaled with ce.MarshalToCBEDocument / MarshalToCTEDocument and unmarshaled into a zero template of the same type; the abstract values must be equal (nil and empty alike, times and big numbers by value, floats by bits). non-trivial = type has a container; distinct = (type, class, repetition, format)"
+	c.Rule = "Same enumeration as C05 (GoValGen.tla): every (type, value class) is materialised, marshaled with ce.MarshalToCBEDocument / MarshalToCTEDocument and unmarshaled into a zero template of the same type - with the default configuration and with every struct type configured as a record type; the abstract values must be equal (nil and empty alike, times and big numbers by value, floats by bits). non-trivial = type has a container; distinct = (type, class, repetition, format)"
 	c.Assumptions = []string{"harness materialiser and abs (goval.go, valabs.go)", "TLC"}
 	cases, reps := govalTier(c)
 	forGoVal(c, cases, reps, func(gc govalCase, v reflect.Value, cfg *configuration.Configuration, key string) {
 		val := v.Interface()
 		want := absValueO(val, valAbsOpts{NilIsEmpty: true, ByValue: true})
-		for _, format := range []string{"cbe", "cte"} {
-			c.Count(key+format, gc.T.E != nil || len(gc.T.Fields) > 0)
+		modes := []string{"cbe", "cte"}
+		rcfg := recordConfig(v.Type())
+		if rcfg != nil {
+			modes = append(modes, "cbe+records", "cte+records")
+		}
+		for _, mode := range modes {
+			format := strings.TrimSuffix(mode, "+records")
+			cfg := cfg
+			if mode != format {
+				cfg = rcfg
+			}
+			c.Count(key+mode, gc.T.E != nil || len(gc.T.Fields) > 0)
 			var doc []byte
 			var err error
 			if format == "cbe" {
@@ -185,7 +287,7 @@ func checkC04(c *Check) {
 			} else {
 				doc, err = ce.MarshalToCTEDocument(val, cfg)
 			}
-			wit := map[string]interface{}{"kind": "goval-roundtrip", "type": gc.T.String(), "class": gc.VC, "format": format, "value": want, "doc": printable(doc)}
+			wit := map[string]interface{}{"kind": "goval-roundtrip", "type": gc.T.String(), "class": gc.VC, "format": mode, "value": want, "doc": printable(doc)}
 			report := func(msg string) {
 				if d := govalDeviation(gc, msg); d != "" && c.Finding(d) {
 					return
